@@ -159,3 +159,28 @@ Theorem C14_depth_is_fixpoint_in_reachable_states :
     make_in N make_depth s sh0 = Ok v0 /\ mapr (make_in N make_depth s) rest = Ok vs /\ d = fold_left N.min vs v0.
 Proof. exact depth_data_is_fixpoint_reachable. Qed.
 Print Assumptions C14_depth_is_fixpoint_in_reachable_states.
+
+(* third session, third round (EGraph/ModelPre.v, ModelSteps{Defs,A,W}.v, AnalysisModel{Sim,Round,Closed,SimEval}.v): the two structural
+   premises are DISCHARGED by a round-by-round SIMULATION of ModelA by the plain model Model.v (a relation R: union-find, hash-cons and
+   counter agree, classes agree after forgetting the data, the pending lists have the same Full entries; every analysis call keeps R),
+   which transports the key invariant and the hash-cons facts proved for Model.v; and the result is lifted from node insertions to TERM
+   insertions.  For EVERY state reachable from the empty e-graph by insertions of statically well-formed terms and unions of returned
+   handles (reachT), the datum of every live class is the fold of merge over make of its stored e-nodes - NO remaining premise. *)
+From SE Require Import EGraph.AnalysisModelClosed.
+Theorem C14_min_size_is_fixpoint_for_all_histories : forall (s : egraph N) (hs : list appid),
+  reachT N N.eqb make_minsize N.min (fun _ : N => None) s hs ->
+  forall c d : N, In c (ids N s) -> analysis_data N s c = Ok d ->
+  forall (sh0 : node) (rest : list node), map fst (filter (fun e : node * N => N.eqb (snd e) c) (hashcons N s)) = sh0 :: rest ->
+  exists (v0 : N) (vs : list N),
+    make_in N make_minsize s sh0 = Ok v0 /\ mapr (make_in N make_minsize s) rest = Ok vs /\ d = fold_left N.min vs v0.
+Proof. exact minsize_data_is_fixpoint_all_histories. Qed.
+Print Assumptions C14_min_size_is_fixpoint_for_all_histories.
+
+Theorem C14_depth_is_fixpoint_for_all_histories : forall (s : egraph N) (hs : list appid),
+  reachT N N.eqb make_depth N.min (fun _ : N => None) s hs ->
+  forall c d : N, In c (ids N s) -> analysis_data N s c = Ok d ->
+  forall (sh0 : node) (rest : list node), map fst (filter (fun e : node * N => N.eqb (snd e) c) (hashcons N s)) = sh0 :: rest ->
+  exists (v0 : N) (vs : list N),
+    make_in N make_depth s sh0 = Ok v0 /\ mapr (make_in N make_depth s) rest = Ok vs /\ d = fold_left N.min vs v0.
+Proof. exact depth_data_is_fixpoint_all_histories. Qed.
+Print Assumptions C14_depth_is_fixpoint_for_all_histories.
